@@ -28,6 +28,32 @@ theorem forRange_eq_iter {σ : Type} (body : Int → σ → Except String σ) (b
   | zero => rfl
   | succ k ih => simp only [forRange, iterRange, hb, bind, Except.bind, ih]
 
+/-- the same under an invariant of (index, state) that the steps preserve inside the range -/
+theorem forRange_eq_iter_inv {σ : Type} (body : Int → σ → Except String σ) (b : Int → σ → σ) (I : Int → σ → Prop) (n : Nat) (i0 : Int) (s : σ)
+    (hb : ∀ i s, I i s → i0 ≤ i → i < i0 + n → body i s = .ok (b i s))
+    (hI : ∀ i s, I i s → i0 ≤ i → i < i0 + n → I (i + 1) (b i s)) (h0 : I i0 s) :
+    forRange body n i0 s = .ok (iterRange b n i0 s) := by
+  induction n generalizing i0 s with
+  | zero => rfl
+  | succ k ih =>
+    have h1 := hb i0 s h0 (Int.le_refl _) (by omega)
+    simp only [forRange, iterRange, h1, bind, Except.bind]
+    exact ih (i0 + 1) (b i0 s) (fun i s' hi h2 h3 => hb i s' hi (by omega) (by omega)) (fun i s' hi h2 h3 => hI i s' hi (by omega) (by omega))
+      (hI i0 s h0 (Int.le_refl _) (by omega))
+
+/-- the last round of a pure `for` loop -/
+theorem iterRange_succ_last {σ : Type} (b : Int → σ → σ) (k : Nat) (i : Int) (s : σ) :
+    iterRange b (k + 1) i s = b (i + k) (iterRange b k i s) := by
+  induction k generalizing i s with
+  | zero => simp [iterRange]
+  | succ k ih =>
+    have := ih (i + 1) (b i s)
+    simp only [iterRange] at this ⊢
+    rw [this]
+    congr 1
+    push_cast
+    omega
+
 /-- an `enumerate` loop whose body is a pure step function on the indices it visits is the pure iteration -/
 theorem forEnum_eq_iter {σ τ : Type} (body : Int → τ → σ → Except String σ) (b : Int → τ → σ → σ) (l : List τ) (i : Int) (s : σ)
     (hb : ∀ (k : Int) (x : τ) (s' : σ), i ≤ k → k < i + l.length → body k x s' = .ok (b k x s')) :
